@@ -338,6 +338,27 @@ def gen(tier, seed):
             m.classes = list(m.classes) + classes_for(name, tag, shadow, glob)
             mods.append(m)
             n += 1
+    # fieldless (all-unit) and tag-only enums: the discriminant fast paths of the Ord / PartialOrd handlers, in shadowing
+    # modules and with variants called None / Some / Ok glob-imported at the derive site
+    from . import p_c04
+    saved = list(p_c04.VN)
+    try:
+        for ci, (shadow, glob, vn) in enumerate([(True, False, saved), (False, True, ['None', 'Some', 'Ok', 'Err']), (True, True, ['Less', 'Equal', 'Greater', 'Option'])]):
+            p_c04.VN[:] = vn
+            for pi, (payloads, repr_, ds) in enumerate([(['none', 'none', 'none'], None, None), (['none', 'none'], 'u8', [200, 3]), (['none'], None, None), (['u8', 'none'], None, None)]):
+                for mode in ('pord', 'ord', 'ordonly'):
+                    if tier == 'quick' and (ci + pi + len(mode)) % 2 == 1 and not (payloads == ['none', 'none', 'none'] and mode == 'pord'):
+                        continue
+                    model.TYPE_WRAP = make_wrap(shadow, glob)
+                    try:
+                        m = p_c04.emit(f'm{n:04d}', payloads, repr_, ds, mode)
+                    finally:
+                        model.TYPE_WRAP = None
+                    m.cfgid = 'OrdEnum:' + m.cfgid + f' @ shadow={int(shadow)} glob={int(glob)} variants={vn[:len(payloads)]}'
+                    mods.append(m)
+                    n += 1
+    finally:
+        p_c04.VN[:] = saved
     mods += generic_modules(n, upper)
     for m in mods:
         m.functions = FUNCTIONS
